@@ -68,7 +68,9 @@ func ruleDomainSML(p *Prog, r *Report) {
 				Accept: func(v []Val) bool { return v[0].K == KInt && v[0].I.Cmp(newBig(127)) <= 0 }})
 		}
 	}
-	if fn := p.MustFunc(r, "sml", "(*parser).parseStreamFunctionCode"); fn != nil {
+	if fn := p.MustFunc(r, "sml", "(*parser).parseStreamFunctionCode"); fn != nil && streamFunctionByEvaluation(p, r, rule, fn) {
+		// decided by evaluation
+	} else if fn != nil {
 		CheckDomain(p, r, DomainSpec{Rule: rule, Key: rule + ":sml.parseStreamFunctionCode:stream", Fn: fn, Sink: isParserErrorf,
 			Subjs:  []Subj{{Name: "stream code", Kind: SCall, Callee: "strconv.Atoi", Ord: 0, Index: 0, Type: typInt}},
 			Consts: []int64{0, 127, 128}, What: "0 <= stream <= 127",
@@ -746,4 +748,82 @@ func bitSizeFromDispatcher(p *Prog, r *Report, rule, family, callee string, widt
 			r.ok(rule, key, pos, fmt.Sprintf("evaluated from the dispatcher for the keyword %s%d: numbers are read with bitSize %d and the node is built with byteSize %d", prefix, k, 8*k, k))
 		}
 	}
+}
+
+// streamFunctionByEvaluation: parseStreamFunctionCode evaluated on the token
+// S<s>F<f> for stream and function codes at and around both limits and for
+// numbers no int holds: a code inside its range is returned as written and
+// not diagnosed; one outside is diagnosed. Reports false when an evaluation
+// does not decide (the guard rule over the conversion results is used then).
+func streamFunctionByEvaluation(p *Prog, r *Report, rule string, fn *ssa.Function) bool {
+	ttSF, ok1 := smlConst(p, "tokenTypeStreamFunction")
+	ttEOF, ok2 := smlConst(p, "tokenTypeEOF")
+	if !ok1 || !ok2 {
+		return false
+	}
+	codes := []string{"0", "1", "7", "64", "126", "127", "128", "129", "200", "254", "255", "256", "257", "1000", "007", "0128", "4294967296", "9223372036854775807", "9223372036854775808", "99999999999999999999999"}
+	num := func(s string) (int64, bool) {
+		v, err := strconv.ParseInt(s, 10, 64)
+		return v, err == nil
+	}
+	var badS, badF []string
+	n := 0
+	run := func(sc, fc string) bool {
+		toks := []lexTok{{typ: ttSF, val: "S" + sc + "F" + fc, line: 1, col: 1}, {typ: ttEOF, val: "", line: 1, col: 9}}
+		_, diags, rets, ok := parseRunRet(p, fn, toks, 2)
+		if !ok || len(rets) != 1 || len(rets[0]) < 2 || rets[0][0].K != KInt || rets[0][1].K != KInt {
+			return false
+		}
+		n++
+		sv, sFits := num(sc)
+		fv, fFits := num(fc)
+		sIn := sFits && sv >= 0 && sv <= 127
+		fIn := fFits && fv >= 0 && fv <= 255
+		want := 0
+		if !sIn {
+			want++
+		}
+		if !fIn {
+			want++
+		}
+		text := "S" + sc + "F" + fc
+		if sIn && rets[0][0].I.Int64() != sv {
+			badS = append(badS, fmt.Sprintf("%s: the stream code is read as %s", text, rets[0][0]))
+		}
+		if fIn && rets[0][1].I.Int64() != fv {
+			badF = append(badF, fmt.Sprintf("%s: the function code is read as %s", text, rets[0][1]))
+		}
+		if len(diags) != want {
+			msg := fmt.Sprintf("%s: %d diagnostics %v, expected %d (stream in [0,127]: %v, function in [0,255]: %v)", text, len(diags), diags, want, sIn, fIn)
+			if sIn == fIn || !sIn {
+				badS = append(badS, msg)
+			}
+			if sIn == fIn || !fIn {
+				badF = append(badF, msg)
+			}
+		}
+		return true
+	}
+	for _, c := range codes {
+		if !run(c, "1") || !run("1", c) {
+			return false
+		}
+	}
+	if !run("128", "256") || !run("127", "255") || !run("99999999999999999999999", "99999999999999999999999") {
+		return false
+	}
+	for i, part := range []struct {
+		name string
+		bad  []string
+		what string
+	}{{"stream", badS, "0 <= stream <= 127"}, {"function", badF, "0 <= function <= 255"}} {
+		_ = i
+		key := rule + ":sml.parseStreamFunctionCode:" + part.name
+		if len(part.bad) > 0 {
+			r.bad(rule, key, p.Pos(fn.Pos()), strings.Join(firstN(uniq(part.bad), 3), "; "))
+		} else {
+			r.ok(rule, key, p.Pos(fn.Pos()), fmt.Sprintf("evaluated on %d stream/function tokens with codes at and around the limits, with leading zeros, and with numbers no int holds: a code is diagnosed exactly when outside %s, and one inside is returned as written", n, part.what))
+		}
+	}
+	return true
 }
